@@ -105,6 +105,13 @@ def judge(rep: C.Report, jobs, traces, *, module="SolverTrace", prop_clauses=Non
         if k in drift:
             rep.spec_drift(f"{label} {drift[k][0]} :: {json.dumps(desc)}")
     rep.extra["sweeps_validated"] = rep.extra.get("sweeps_validated", 0) + n_sweeps
+    # honesty about the 32-bit range: traces judged only on a prefix, and traces that reached the model without a sweep
+    cut = sum(1 for j in ok_idx if not traces[j].get("complete", True) and not traces[j].get("error"))
+    empty = sum(1 for j in ok_idx if not any(e["e"] == "sweep" for e in traces[j]["ev"]))
+    rep.extra["traces_judged_on_a_prefix_only"] = rep.extra.get("traces_judged_on_a_prefix_only", 0) + cut
+    rep.extra["traces_without_any_sweep"] = rep.extra.get("traces_without_any_sweep", 0) + empty
+    if ok_idx and empty * 4 > len(ok_idx):
+        raise C.MachineryError(f"{label}: {empty} of {len(ok_idx)} traces reached the model without a single sweep")
     return acc, rej
 
 
